@@ -369,14 +369,11 @@ theorem stepF_fsInv (f : FSt) (e : FEv) (h : FsInv f) : FsInv (stepF f e).1 := b
       | none => simp [hnew]
       | some d => simp
   | cmdRevoke =>
-    have h1 := expireFs_fsInv f h
     have h0 := expireFs_noPase f h
     simp only [stepF]
-    split
-    · exact h1
-    · intro hh
-      have : hasPase (expireFs f).st.table = true := hh
-      rw [h0] at this; cases this
+    intro hh
+    have : hasPase (expireFs f).st.table = true := hh
+    rw [h0] at this; cases this
   | fsPoll =>
     simp only [stepF]
     split
@@ -410,10 +407,7 @@ theorem revoke_removes_pase_sessions (evs : List FEv) :
     split
     · rename_i hn; simpa using hn
     · rfl
-  simp only [stepF]
-  split
-  · rename_i hw; exact ⟨h0, hw, hfs⟩
-  · exact ⟨h0, rfl, hfs⟩
+  exact ⟨h0, rfl, hfs⟩
 
 /-- the fail-safe's own expiry removes the PASE sessions as well -/
 theorem fs_expiry_removes_pase_sessions (evs : List FEv) (d : Nat)
@@ -548,10 +542,7 @@ theorem stepF_window_none (f : FSt) (e : FEv) (hno : isOpenF e = false) (h : f.s
       unfold expireFs; split <;> exact h
     have hs : (expireFs f).st.sessions = f.st.sessions := by
       unfold expireFs; split <;> rfl
-    simp only [stepF]
-    split
-    · exact ⟨hw, hs⟩
-    · exact ⟨rfl, hs⟩
+    exact ⟨rfl, hs⟩
   | fsPoll =>
     have hw : (expireFs f).st.window = none := by
       unfold expireFs; split <;> exact h
@@ -601,14 +592,14 @@ example :
   decide
 
 /-- … the fail-safe runs from the FIRST session (armed only when not armed) and its expiry removes the
-sessions; a RevokeCommissioning without a window answers `WindowNotOpen` -/
+sessions; a RevokeCommissioning without a window succeeds (as the code does) -/
 example :
     let c1 : Conf := { pw := 7, ctx := 1, pA := 5, pB := 2 }
     let f := runF {} [.ev (.op (.openWin 7 180)),
       .ev (.msg 10 (.pbkdf 1 .good none)), .ev (.msg 11 (.pake1 1 (.valid 5))), .ev (.msg 12 (.pake3 1 (.mac c1))),
       .ev (.op (.tick 59999)), .fsPoll]
     let g := runF f [.ev (.op (.tick 1)), .fsPoll, .ev (.op .revoke)]
-    (hasPase f.st.table, f.fs, hasPase g.st.table, g.fs, (stepF g .cmdRevoke).2) = (true, some 60000, false, none, .windowNotOpen) := by
+    (hasPase f.st.table, f.fs, hasPase g.st.table, g.fs, (stepF g .cmdRevoke).2) = (true, some 60000, false, none, .ok) := by
   decide
 
 end C02
